@@ -340,3 +340,66 @@ func Harness_C06_AttachDuringClose() {
 	vAssert("no-router-goroutine-left", vGoroutinesSinceMark() <= 0)
 	vCover("attach-during-close-done")
 }
+
+// A client attaching (authentication path through the realm's worker) while
+// its realm is being removed.
+func vC06RemoveRealmAttachRace(budget int) {
+	r := vNewRouter(&Config{RealmConfigs: []*RealmConfig{
+		{URI: "realm1", AnonymousAuth: true, RequireLocalAuth: true},
+		{URI: "realm2", AnonymousAuth: true}}})
+	other := vAttach(r, "realm2", nil, 64)
+	vAssert("attached", other != nil)
+	cl, rp := transport.LinkedPeersQSize(8)
+	vSetPreempt(budget)
+	var aerr error
+	done := make(chan struct{})
+	go func() {
+		defer close(done)
+		go func() {
+			cl.Send() <- &wamp.Hello{Realm: "realm1", Details: wamp.Dict{"roles": vAllRoles, "authmethods": wamp.List{"anonymous"}}}
+		}()
+		aerr = r.AttachClient(rp, nil)
+	}()
+	r.RemoveRealm("realm1")
+	vSetPreempt(0)
+	<-done
+	vQuiesce()
+	_ = aerr
+	// the other realm is unaffected
+	vBystanderServed(r, other)
+	vCover("remove-realm-attach-race-done")
+}
+
+func Harness_C06_RemoveRealmAttachRace_2() { vC06RemoveRealmAttachRace(2) }
+func Harness_C06_RemoveRealmAttachRace_3() { vC06RemoveRealmAttachRace(3) }
+
+// Stall exploration: the attaching goroutine is descheduled after its k-th
+// synchronisation operation and runs again only when everything else has come
+// to rest (RemoveRealm has completed).
+func Harness_C06_RemoveRealmAttachStall() {
+	r := vNewRouter(&Config{RealmConfigs: []*RealmConfig{
+		{URI: "realm1", AnonymousAuth: true, RequireLocalAuth: true},
+		{URI: "realm2", AnonymousAuth: true}}})
+	other := vAttach(r, "realm2", nil, 64)
+	vAssert("attached", other != nil)
+	cl, rp := transport.LinkedPeersQSize(8)
+	k := vChoice("stall-after", 12)
+	var aerr error
+	done := make(chan struct{})
+	go func() {
+		defer close(done)
+		go func() {
+			cl.Send() <- &wamp.Hello{Realm: "realm1", Details: wamp.Dict{"roles": vAllRoles, "authmethods": wamp.List{"anonymous"}}}
+		}()
+		vStallAfter(k)
+		aerr = r.AttachClient(rp, nil)
+		vStallAfter(-1)
+	}()
+	vQuiesce()
+	r.RemoveRealm("realm1")
+	<-done
+	vQuiesce()
+	_ = aerr
+	vBystanderServed(r, other)
+	vCover("remove-realm-attach-stall-done")
+}
